@@ -456,3 +456,21 @@ package scanner
 //@ func stateRegexFirstChar
 //@   tag C14
 //@   ensures [C14] c == 47 ==> ret != nil
+
+// ---------------------------------------------------------------- quoted parameters: exact transitions (C17)
+
+//@ func stateParameterStart
+//@   tag C17
+//@   ensures [C17] c == 34 ==> ret == nil && s.step == stateParameterInQuoted && len(s.finds) == old(len(s.finds)) + 1 && s.finds[len(s.finds)-1].type_ == 2 && s.finds[len(s.finds)-1].position == old(s.curIndex)
+
+//@ func stateParameterInQuoted
+//@   tag C17
+//@   ensures [C17] c == 10 || c == 13 || c == 0 ==> ret != nil && ret.index == old(s.curIndex)
+//@   ensures [C17] c == 92 ==> ret == nil && s.step == stateParameterInQuotedSlash && s.finds == old(s.finds)
+//@   ensures [C17] c == 34 ==> ret == nil && s.step == stateParameterOrAnnotation && len(s.finds) == old(len(s.finds)) + 1 && s.finds[len(s.finds)-1].type_ == 3 && s.finds[len(s.finds)-1].position == old(s.curIndex)
+//@   ensures [C17] c != 10 && c != 13 && c != 0 && c != 92 && c != 34 ==> ret == nil && s.step == old(s.step) && s.finds == old(s.finds)
+
+//@ func stateParameterInQuotedSlash
+//@   tag C17
+//@   ensures [C17] c == 92 || c == 34 ==> ret == nil && s.step == stateParameterInQuoted && s.finds == old(s.finds)
+//@   ensures [C17] c != 92 && c != 34 ==> ret != nil && ret.index == old(s.curIndex)
